@@ -67,6 +67,50 @@ pub fn near_misses(name: &str, out: &mut BTreeSet<String>) {
     }
 }
 
+/// Systematic rewritings of a known name into the other notations the same class / method has elsewhere in the Java
+/// world (descriptor form, module / class-loader prefixes of Java 9+ frames, a signature glued to a method name,
+/// `.class` / `[]` suffixes). None of them is a name of the file, so every one must be answered like any unknown name.
+pub fn notation_variants(name: &str, out: &mut BTreeSet<String>) {
+    if name.is_empty() || name.len() > 200 {
+        return;
+    }
+    let slashed = name.replace('.', "/");
+    for v in [
+        format!("L{name};"),
+        format!("L{slashed};"),
+        format!("[L{slashed};"),
+        format!("[{name}"),
+        slashed.clone(),
+        format!("app//{name}"),
+        format!("java.base/{name}"),
+        format!("my.module@1.0/{name}"),
+        format!("/{name}"),
+        format!("{name}/"),
+        format!("class {name}"),
+        format!("{name}.class"),
+        format!("{name}.java"),
+        format!("{name}[]"),
+        format!("{name};"),
+        format!("{name}()"),
+        format!("{name}(int)"),
+        format!("{name}(I)V"),
+        format!("{name}()V"),
+        format!("{name}:"),
+        format!("{name}: "),
+        format!("{name}\t"),
+        format!(" {name}"),
+        format!("\u{feff}{name}"),
+        format!("{name}\u{200b}"),
+        format!("{name}$"),
+        format!("${name}"),
+        format!("{name}.{name}"),
+        name.to_uppercase(),
+        name.to_lowercase(),
+    ] {
+        out.insert(v);
+    }
+}
+
 impl Universe {
     pub fn from_names(
         obf_classes: &BTreeSet<String>,
@@ -85,6 +129,10 @@ impl Universe {
             for c in obf_classes {
                 near_misses(c, &mut other_c);
             }
+            // (the first and the last name of the file: the enlarged set multiplies the cross product)
+            for c in obf_classes.iter().take(1).chain(obf_classes.iter().rev().take(1)) {
+                notation_variants(c, &mut other_c);
+            }
         }
         other_c.insert(String::new());
         other_c.insert("zz.Unknown".into());
@@ -100,6 +148,9 @@ impl Universe {
         if near {
             for m in obf_methods {
                 near_misses(m, &mut other_m);
+            }
+            for m in obf_methods.iter().take(1).chain(obf_methods.iter().rev().take(1)) {
+                notation_variants(m, &mut other_m);
             }
         }
         other_m.insert(String::new());
@@ -117,6 +168,19 @@ impl Universe {
             ps.insert(format!("({p})"));
             ps.insert(format!("{p})"));
             ps.insert(format!(" {p}"));
+            ps.insert(format!("{p} "));
+            ps.insert(format!("{p},"));
+            ps.insert(format!(",{p}"));
+            ps.insert(format!("{p};"));
+            // other spellings of the same list: the separator as format_signature prints it, descriptor form
+            if p.contains(',') {
+                ps.insert(p.replace(',', ", "));
+                ps.insert(p.replace(',', " ,"));
+                ps.insert(p.replace(',', ";"));
+                ps.insert(p.replace(',', ""));
+            }
+            ps.insert(p.replace('.', "/"));
+            ps.insert(p.to_uppercase());
         }
         if near {
             let snapshot: Vec<String> = params.iter().take(8).cloned().collect();
